@@ -294,6 +294,8 @@ def reuses_quote_inside_fstring(src):
             q = tok.string.lstrip("rRbBuUfF")[:1]
             if q in stack:
                 return True
+            if name == "STRING" and any(qq in tok.string for qq in stack):
+                return True  # the enclosing quote character inside a nested literal: equally 3.12-only
             if name == "FSTRING_START":
                 stack.append(q)
         elif name == "FSTRING_END":
